@@ -157,11 +157,16 @@ Inductive op :=
 | OpChown (p uid gid : Z)             (* chown(2): follows symlinks *)
 | OpSymlink (l target : Z)            (* (re)create l -> target *)
 | OpRemove (p : Z)                    (* unlink(2): the name itself *)
-| OpExec (api : Z) (p : Z)            (* SafeCmdExecution / CmdSensor.GetValue / CmdFan.{GetPwm,SetPwm,GetRpm} *)
-| OpValidate (c : cfg_class) (p : Z). (* configuration.Validate(p) *)
+| OpExec (api : Z) (p : Z)            (* SafeCmdExecution / CmdSensor.GetValue / CmdFan.{GetPwm,SetPwm,GetRpm} /
+                                         api 5: initializeSensors with a cmd sensor no curve uses *)
+| OpValidate (c : cfg_class) (p : Z)  (* configuration.Validate(p) *)
+| OpExecDuring (api : Z) (p : Z) (during : op).
+                                      (* a call during which, WHILE the started command runs, another process
+                                         performs [during]; the command then ends with a failure status *)
 
-Definition apply_op (s : fs) (o : op) : fs :=
+Fixpoint apply_op (s : fs) (o : op) : fs :=
   match o with
+  | OpExecDuring _ p d => match exec_call s p with Ran _ _ _ _ => apply_op s d | _ => s end
   | OpCreate p u g m => bind s p (Some (NFile u g m))
   | OpChmod p m => match kstat s p with RFile f u g _ => bind s f (Some (NFile u g m)) | _ => s end
   | OpChown p u g => match kstat s p with RFile f _ _ m => bind s f (Some (NFile u g m)) | _ => s end
@@ -177,7 +182,7 @@ Inductive event :=
 
 Definition event_of (s : fs) (o : op) : event :=
   match o with
-  | OpExec _ p => EvCall (exec_call s p)
+  | OpExec _ p | OpExecDuring _ p _ => EvCall (exec_call s p)   (* one check, at most one start, per call *)
   | OpValidate c p => EvValidate (validate c s p)
   | _ => EvFs
   end.
